@@ -74,6 +74,10 @@ pub fn items() -> Vec<Item> {
     for (name, body) in host_tasks {
         v.push(Item { name: name.into(), text: format!("use vh\n{body}"), inputs: vec![], lines: vec![], expect: None, deterministic: false });
     }
+    // the stratified selection of the generated program universe (every statement / expression form of U-prog)
+    for (name, p) in crate::ugen::standalone_corpus_full(Tier::Quick) {
+        v.push(Item { name: format!("uprog:{name}"), text: p.standalone(), inputs: p.host_inputs(), lines: vec![], expect: None, deterministic: true });
+    }
     for (name, body) in races {
         v.push(Item { name: name.into(), text: format!("use vh\n{body}"), inputs: vec![], lines: vec![], expect: None, deterministic: true });
     }
